@@ -189,10 +189,6 @@ pub fn idiom_fold_skip1<F: FnMut(Rcvar, &Rcvar) -> Rcvar>(values: &Vec<Rcvar>, i
     ensures (forall|a: Rcvar, b: &Rcvar, o: Rcvar| f.ensures((a, b), o) ==> o == a || o == *b)
         ==> (r == init || exists|i: int| 1 <= i < values@.len() && r == values@[i]),
 { values.iter().skip(1).fold(init, f) }
-pub assume_specification<T: Ord>[std::cmp::max::<T>](a: T, b: T) -> (r: T)
-    ensures r == a || r == b;
-pub assume_specification<T: Ord>[std::cmp::min::<T>](a: T, b: T) -> (r: T)
-    ensures r == a || r == b;
 // JoinFn, from the function specification: the elements of the array joined with the glue between them, in order
 pub open spec fn join_strs(glue: Seq<char>, parts: Seq<Seq<char>>) -> Seq<char>
     decreases parts.len()
